@@ -44,6 +44,9 @@ checks = {
                 note="trusted base: Kubernetes enforcement of the generated objects; client-go fake tracker (extended with DeleteCollection); one known finding (stale per-service policy after update) is listed in known_findings.json"),
     "C19": dict(engine="chainmc", cat="model_checking", tech="exhaustive boundary grid (all singles and pairs, thorough: arithmetic triples, of every limit at/just beyond its bound plus overflow candidates) through ValidateBasic + real handler vs. an independent math/big predicate; stored-state predicate on every reachable state",
                 text="No create-deployment request of the grid that violates any limit (group count, unique names, unit count, per-unit cpu/memory/storage/replicas/price, denomination, group totals, 32-byte version, minimum deposit) is admitted, in the initial and in a populated state, and rejected requests leave the state hash unchanged; every deployment stored in any reachable state of S-life satisfies the predicate.", ref="6 C19"),
+    "C07": dict(engine="chainmc", cat="model_checking", tech="explicit-state BFS with every transition re-executed under every enumerated map-iteration start (runtime overlay pins mapiterinit's random draw per goroutine): 8 offsets x up to 4 start buckets for all iterations, then per-iteration for the first 6",
+                text="For every transaction in every explored state, executions with every enumerated Go map iteration order produce byte-identical state writes, result data, error and events, and agree with the free-running execution; all map iterations performed by akash code were over single-bucket maps, for which the 8 start offsets are all possible orders.", ref="6 C07",
+                note="trusted base: determinism of cosmos-sdk / tendermint infrastructure over multi-bucket maps (varied over 32 starts of one layout, not exhaustively: layout depends on the per-map hash seed); handlers read no clock or randomness; patched copy of runtime/map.go supplied through -overlay (GOROOT untouched)"),
 }
 
 m = {
